@@ -83,7 +83,10 @@ fn value_str(v: &Val, style: IdStyle) -> String {
     match v.t.as_str() {
         "str" => quote(&style.conc(&v.s)),
         "int" => format!("{}", v.n),
-        "float" => format!("{:?}", v.n as f64 / 2.0),
+        "float" => {
+            let f = float_of(v.n);
+            if f.fract() == 0.0 { format!("{:.1}", f) } else { format!("{:?}", f) }
+        }
         "bool" => (if v.n != 0 { "true" } else { "false" }).to_string(),
         "null" => "null".to_string(),
         "any" => "any".to_string(),
@@ -278,7 +281,7 @@ fn dataoperator(op: &str, v: &Val, style: IdStyle) -> DataOperator<'static> {
         ("and", "list") => DataOperator::And(vec![DataOperator::GreaterThan(v.l[0].n as isize), DataOperator::LessThan(v.l[1].n as isize)]),
         ("has", "str") => DataOperator::HasElement(std::borrow::Cow::Owned(style.conc(&v.s))),
         ("has", "int") => DataOperator::HasElementInt(v.n as isize),
-        ("has", "float") => DataOperator::HasElementFloat(v.n as f64 / 2.0),
+        ("has", "float") => DataOperator::HasElementFloat(float_of(v.n)),
         ("=", "any") => DataOperator::Any,
         ("=", "null") => DataOperator::Null,
         ("=", "bool") => {
@@ -290,15 +293,15 @@ fn dataoperator(op: &str, v: &Val, style: IdStyle) -> DataOperator<'static> {
         }
         ("=", "str") => DataOperator::Equals(std::borrow::Cow::Owned(style.conc(&v.s))),
         ("=", "int") => DataOperator::EqualsInt(v.n as isize),
-        ("=", "float") => DataOperator::EqualsFloat(v.n as f64 / 2.0),
+        ("=", "float") => DataOperator::EqualsFloat(float_of(v.n)),
         (">", "int") => DataOperator::GreaterThan(v.n as isize),
         (">=", "int") => DataOperator::GreaterThanOrEqual(v.n as isize),
         ("<", "int") => DataOperator::LessThan(v.n as isize),
         ("<=", "int") => DataOperator::LessThanOrEqual(v.n as isize),
-        (">", "float") => DataOperator::GreaterThanFloat(v.n as f64 / 2.0),
-        (">=", "float") => DataOperator::GreaterThanOrEqualFloat(v.n as f64 / 2.0),
-        ("<", "float") => DataOperator::LessThanFloat(v.n as f64 / 2.0),
-        ("<=", "float") => DataOperator::LessThanOrEqualFloat(v.n as f64 / 2.0),
+        (">", "float") => DataOperator::GreaterThanFloat(float_of(v.n)),
+        (">=", "float") => DataOperator::GreaterThanOrEqualFloat(float_of(v.n)),
+        ("<", "float") => DataOperator::LessThanFloat(float_of(v.n)),
+        ("<=", "float") => DataOperator::LessThanOrEqualFloat(float_of(v.n)),
         (o, "datetime") => {
             let d = match value_of(v, style) {
                 DataValue::Datetime(d) => d,
